@@ -32,7 +32,14 @@ one() {
 export -f one; export OUT FILE PKG PROPS HERE
 MUTDIR="${MUTATION_OUT:-$HERE/../mutation}"; mkdir -p "$MUTDIR"
 REPORT="$MUTDIR/$(echo "$FILE" | tr '/' '_').tsv"
+if [ -n "${ONLY_SURVIVORS:-}" ] && [ -f "$ONLY_SURVIVORS" ]; then
+  # re-run only the mutants an earlier report lists as SURVIVED / trouble, keep its other lines
+  grep -v -P "\t(SURVIVED|trouble)" "$ONLY_SURVIVORS" > "$REPORT.keep"
+  grep -P "\t(SURVIVED|trouble)" "$ONLY_SURVIVORS" | cut -f1 | xargs -P "$PAR" -I{} bash -c 'mkdir -p "${TMPDIR:-/tmp}"; one {}' > "$REPORT.new"
+  cat "$REPORT.keep" "$REPORT.new" | sort > "$REPORT"; rm -f "$REPORT.keep" "$REPORT.new"
+else
 cut -f1 "$OUT/m/INDEX.tsv" | xargs -P "$PAR" -I{} bash -c 'mkdir -p "${TMPDIR:-/tmp}"; one {}' | sort > "$REPORT"
+fi
 rm -rf "$OUT"
 echo "report: $REPORT"
 cut -f2 "$REPORT" | sed 's/ .*//' | sort | uniq -c
